@@ -39,6 +39,14 @@ macro_rules! not_impl {
     }};
 }
 
+// An expression that the ASG cannot represent yet: log an error and use a placeholder.
+macro_rules! not_impl_expr {
+    ($ctx:expr, $node:expr) => {{
+        $ctx.insert_error(NotImplementedError, &$node);
+        Some(asg::TExpr::new(asg::Expr::NullExpr, Type::Undefined))
+    }};
+}
+
 pub struct ParseResult<T: SourceTrait> {
     syntax_result: T, // syntax tree and errors
     context: Context, // semantic asg and errors
@@ -668,19 +676,16 @@ fn expr_to_asg_texpr(
         // with negative values.
         synast::Expr::PrefixExpr(prefix_expr) => match prefix_expr.op_kind() {
             Some(synast::UnaryOp::Neg) => match prefix_expr.expr() {
-                Some(synast::Expr::Literal(ref literal)) => Some(match literal.kind() {
+                Some(synast::Expr::Literal(ref literal)) => match literal.kind() {
                     synast::LiteralKind::FloatNumber(f) => {
-                        negative_float_number_to_asg_type(f).to_texpr()
+                        Some(negative_float_number_to_asg_type(f).to_texpr())
                     }
-                    synast::LiteralKind::IntNumber(n) => negative_int_to_asg_type(n).to_texpr(),
-                    _ => {
-                        // This will take some work
-                        //                        context.insert_error(NotImplementedError, &prefix_expr);
-                        //                        Some(asg::Expr::NullExpr).to_texpr()
-                        //                        Some(asg::Stmt::NullStmt)
-                        panic!("Only integers and floats are supported as operands to unary minus.")
+                    synast::LiteralKind::IntNumber(n) => {
+                        Some(negative_int_to_asg_type(n).to_texpr())
                     }
-                }),
+                    // Only integers and floats are supported as operands to unary minus.
+                    _ => not_impl_expr!(context, prefix_expr),
+                },
 
                 Some(synast::Expr::TimingLiteral(ref timing_literal)) => {
                     match timing_literal.time_unit().unwrap() {
@@ -695,9 +700,8 @@ fn expr_to_asg_texpr(
                                 _ => panic!("You have found a bug in oq3_syntax or oq3_parser"),
                             })
                         }
-                        _ => {
-                            panic!("Only floats are supported as operands to unary minus.")
-                        }
+                        // Only imaginary literals are supported as operands to unary minus.
+                        _ => not_impl_expr!(context, prefix_expr),
                     }
                 }
 
@@ -713,9 +717,8 @@ fn expr_to_asg_texpr(
                     panic!("You have found a bug in oq3_parser. No operand to unary minus found.")
                 }
             },
-            Some(op) => {
-                panic!("Unary operators other than minus are not supported. Found '{op:?}.'")
-            }
+            // Unary operators other than minus are not supported.
+            Some(_op) => not_impl_expr!(context, prefix_expr),
             _ => panic!("You have found a bug in oq3_parser. No operand to unary operator found."),
         },
 
@@ -726,7 +729,9 @@ fn expr_to_asg_texpr(
             let left_syn = bin_expr.lhs();
             let right_syn = bin_expr.rhs();
 
-            let op = binary_op_to_asg_type(synast_op);
+            let Some(op) = binary_op_to_asg_type(synast_op) else {
+                return not_impl_expr!(context, bin_expr);
+            };
             let left = expr_to_asg_texpr(left_syn, context).unwrap();
             let right = expr_to_asg_texpr(right_syn, context).unwrap();
             // There are no binary ops that accept quantum operands.
@@ -832,15 +837,16 @@ fn expr_to_asg_texpr(
         synast::Expr::CallExpr(call_expr) => Some(call_expr_to_asg_texpr(call_expr, context)),
 
         // Followng may be a parser error. But I think we will need to support BlockExpr anywhere here.
-        synast::Expr::BlockExpr(_) => panic!("BlockExpr not supported."),
+        synast::Expr::BlockExpr(block_expr) => not_impl_expr!(context, block_expr),
 
-        synast::Expr::ArrayExpr(_) => panic!("ArrayExpr not supported {expr:?}"),
-        synast::Expr::ArrayLiteral(_) => panic!("ArrayLiteral not supported {expr:?}"),
-        synast::Expr::BoxExpr(_) => panic!("BoxExpr not supported {expr:?}"),
-        synast::Expr::GateCallExpr(_)
+        synast::Expr::ArrayExpr(array_expr) => not_impl_expr!(context, array_expr),
+        synast::Expr::ArrayLiteral(array_literal) => not_impl_expr!(context, array_literal),
+        synast::Expr::BoxExpr(box_expr) => not_impl_expr!(context, box_expr),
+        // These are not expressions. But the parser accepts some of them in expression position.
+        other @ (synast::Expr::GateCallExpr(_)
         | synast::Expr::GPhaseCallExpr(_)
         | synast::Expr::DimExpr(_)
-        | synast::Expr::ModifiedGateCallExpr(_) => panic!("You have found a bug in oq3_parser."),
+        | synast::Expr::ModifiedGateCallExpr(_)) => not_impl_expr!(context, other),
     }
 }
 
@@ -1029,8 +1035,9 @@ fn expression_list_to_asg_texpr(
         .collect()
 }
 
-fn binary_op_to_asg_type(synast_op: synast::BinaryOp) -> asg::BinaryOp {
-    match synast_op {
+// Return `None` if the operator is not supported in the ASG.
+fn binary_op_to_asg_type(synast_op: synast::BinaryOp) -> Option<asg::BinaryOp> {
+    Some(match synast_op {
         synast::BinaryOp::ArithOp(arith_op) => {
             use asg::BinaryOp::ArithOp;
             use synast::ArithOp::*;
@@ -1060,16 +1067,16 @@ fn binary_op_to_asg_type(synast_op: synast::BinaryOp) -> asg::BinaryOp {
             match cmp_op {
                 Eq { negated: false } => CmpOp(asg::CmpOp::Eq),
                 Eq { negated: true } => CmpOp(asg::CmpOp::Neq),
-                Ord { .. } => {
-                    panic!("Comparision operators other than `=` and `!=` are not supported.")
-                }
+                // Comparision operators other than `=` and `!=` are not supported.
+                Ord { .. } => return None,
             }
         }
         synast::BinaryOp::ConcatenationOp => asg::BinaryOp::ConcatenationOp,
         synast::BinaryOp::PowerOp => asg::BinaryOp::ConcatenationOp,
-        synast::BinaryOp::LogicOp(_) => panic!("Binary logic operators unsupported."),
-        synast::BinaryOp::Assignment { .. } => panic!("Unsupported binary operator"),
-    }
+        // Binary logic operators and compound assignment are not supported.
+        synast::BinaryOp::LogicOp(_) => return None,
+        synast::BinaryOp::Assignment { .. } => return None,
+    })
 }
 
 fn literal_to_asg_texpr(literal: &synast::Literal) -> Option<asg::TExpr> {
